@@ -614,6 +614,16 @@ def gen_op(rng, w):
             script.append((lambda uu: (lambda r, ww: gen_user_op(r, ww, uu, "Enter")))(u))
         return first
     roll = rng.random()
+    if not w.__dict__.get("slept") and o["cfg"] is not None and rng.random() < 0.03:
+        # long absence: one user sleeps for 6..8 weeks while another one settles every week, then the sleeper returns
+        # (claim_multi skips the weeks outside the window with advance_multiple_weeks: the recorded energy must decay over them)
+        w.slept = True
+        sleeper, active = rng.sample(USERS[:3], 2)
+        for _ in range(rng.choice([6, 6, 7, 8])):
+            script.append(["Advance", rng.choice([1, 10, 100]), EPOCHS_IN_WEEK])
+            script.append((lambda aa: (lambda r, ww: gen_user_op(r, ww, aa, r.choice(["ClaimBoosted", "Claim", "Enter"]))))(active))
+        script.append((lambda ss: (lambda r, ww: gen_user_op(r, ww, ss, r.choice(["ClaimBoosted", "Claim", "Exit", "Enter"]))))(sleeper))
+        return ["Advance", rng.choice([1, 10]), 0]
     if o["cfg"] is None and roll < 0.25:
         return ["SetFactors", OWNER, gen_factors(rng, scale)]
     if o["state"] != 1 and roll < 0.7:
